@@ -288,6 +288,15 @@ func (t *TSA) RoundTrip(req *http.Request) (*http.Response, error) {
 		}
 		psd.Content.SignerInfos = other.Content.SignerInfos
 	}
+	if out.Kind == "granted-no-token" {
+		// "granted", and nothing else: the optional token is left out
+		der, err := asn1.Marshal(struct{ Status pkcs9.PKIStatusInfo }{pkcs9.PKIStatusInfo{Status: pkcs9.StatusGranted}})
+		if err != nil {
+			panic(err)
+		}
+		record()
+		return tsaResp(req, 200, "application/timestamp-reply", der), nil
+	}
 	status := pkcs9.StatusGranted
 	switch out.Kind {
 	case "granted-with-mods":
